@@ -31,7 +31,10 @@ RULE = ('Generated client generations: each opens 1-3 transports and runs a '
         'reachable from the server after n generations == after 2n '
         '(tolerance < n objects), (3) a fresh client is served normally '
         'afterwards. Non-trivial: an unfinished binary packet at transport '
-        'end, or a raising handler, or an unanswered callback.')
+        'end, or a raising handler, or an unanswered callback, or a connect '
+        'handler that disconnects its own client and returns, or a '
+        'transport lost while a connect handler is suspended. The _ending '
+        'and _deciding sets are among the compared containers.')
 ASSUMPTIONS = [
     'single-host managers, and a message-queue manager on the host that owns '
     'every client of the history (a silent channel)',
